@@ -181,6 +181,20 @@ func slotClass(ann map[string]string, r int32) string {
 }
 
 // CheckHelperPair compares every helper answer for (r, annotations) with the model.
+// safeHelperPair is CheckHelperPair with a panic of a helper turned into a result.
+func safeHelperPair(r int32, ann map[string]string) (check, disc, detail, panicked string) {
+	defer func() {
+		if x := recover(); x != nil {
+			if he, ok := x.(HarnessError); ok {
+				panic(he)
+			}
+			panicked = fmt.Sprintf("a delete-slots helper panicked for r=%d annotation %q: %v", r, ann[annSlots], x)
+		}
+	}()
+	check, disc, detail = CheckHelperPair(r, ann)
+	return
+}
+
 func CheckHelperPair(r int32, ann map[string]string) (check, disc, detail string) {
 	obj := &metav1.ObjectMeta{Annotations: ann}
 	slots := ModelSlots(ann)
@@ -320,7 +334,12 @@ func (s *Sim) checkHelpers() {
 		s.helperSeen[key] = true
 		s.oracles.helperEvals++
 		s.count("oracle.helper_pairs_judged")
-		if check, disc, detail := CheckHelperPair(specReplicas(set), set.Annotations); check != "" {
+		check, disc, detail, panicked := safeHelperPair(specReplicas(set), set.Annotations)
+		if panicked != "" {
+			// the helpers are called by clients and by the controller on every reconcile
+			s.violate("C01", "C01.helper-panic", slotClass(set.Annotations, specReplicas(set)), panicked)
+			s.violate("C15", "C15.panic", "client/apis/apps/v1/helper", panicked)
+		} else if check != "" {
 			s.violate("C01", check, disc, detail)
 		}
 	}
